@@ -28,7 +28,7 @@ func init() {
 				"pipeline limiting is enabled and passes that semaphore on.",
 			NotCovered: "the bound (current <= stop) and liveness over all schedules: they follow from the extracted transition " +
 				"table and the lock/wake-up discipline by an invariant argument that the checker does not mechanise.",
-			Rules: map[string]string{"C18-R20": "marking a stream-capable server stopped closes its listeners in the same step (ServerDNS.shutdown, ServerDNSCrypt.shutdown): every successful return of shutdown is dominated by closeListeners, so a pending accept gives its limiter slot back whatever happens to the rest of Shutdown", "C18-R19": "the TLS listener wrapper passes on every connection that the wrapped (limiter) listener gave it: after a successful inner Accept every exit of tlsListener.Accept has wrapped the connection for the caller or closed it (a dropped connection keeps its limiter slot for ever)", "C18-R18": "every key of the TCP pipeline limit and the connection limit (ratelimit.tcp, ratelimit.connection_limit) of the documented sample configuration config.dist.yaml is named by a yaml tag of the configuration structure: a setting that the decoder ignores leaves its limiter switched off", "C18-R17": "closing a bind-to-device channel listener (or packet connection) closes its channel, which is what makes a blocked Accept (ReadFrom) return: the first Close closes the channel and marks the listener closed, a second one only reports net.ErrClosed", "C18-R16": "while the limiter's shared mutex (counterCond.L) is held, only the counter, the condition variable, the gauges and the logger are called: no method of the wrapped listener or connection, which may block on a lock of its own while every listener of the limiter waits", "C18-R15": "tlsConn.Close closes the wrapped (limiter) connection on every path", "C18-R14": "ServerDNS.Start and ServerTLS.Start count their TCP accept loop in the wait group that Shutdown waits for before it releases the worker pool", "C18-R12": "the worker pool of the plain-DNS and DoT servers has no capacity limit, so Submit cannot fail on the accept path and strand a connection with its limiter slot (shared with C01-R9)", "C18-R13": "dnssvc.newListeners passes the configured connection limiter to newListenConfig as it is, for every protocol", "C18-R11": "an accepted connection is handed to its worker or closed on every path; closeListeners closes both listeners unconditionally", "C18-RC": "class rules (error chains, shadowed results, character classes, crossed arguments, pool constructors, array pools, loop completeness, loop-carried buffers, replacing setters, complete clones, Grow arithmetic, pooled-buffer escape, sorted searches, fresh decode targets, per-iteration objects, whole-message copies, codec guards) over the packages this property rests on", "C18-R10": "Shutdown waits for the connections before releasing the worker pool", "C18-R1": "counter transition tables", "C18-R2": "counter state only under counterCond.L",
+			Rules: map[string]string{"C18-R21": "every stream listener of module dnsserver is created through the server's ListenConfig (the connection limiter wraps it there): no server calls net.Listen, net.ListenTCP or tls.Listen itself; R22: a server constructor replaces ListenConfig only when the caller gave none", "C18-R20": "marking a stream-capable server stopped closes its listeners in the same step (ServerDNS.shutdown, ServerDNSCrypt.shutdown): every successful return of shutdown is dominated by closeListeners, so a pending accept gives its limiter slot back whatever happens to the rest of Shutdown", "C18-R19": "the TLS listener wrapper passes on every connection that the wrapped (limiter) listener gave it: after a successful inner Accept every exit of tlsListener.Accept has wrapped the connection for the caller or closed it (a dropped connection keeps its limiter slot for ever)", "C18-R18": "every key of the TCP pipeline limit and the connection limit (ratelimit.tcp, ratelimit.connection_limit) of the documented sample configuration config.dist.yaml is named by a yaml tag of the configuration structure: a setting that the decoder ignores leaves its limiter switched off", "C18-R17": "closing a bind-to-device channel listener (or packet connection) closes its channel, which is what makes a blocked Accept (ReadFrom) return: the first Close closes the channel and marks the listener closed, a second one only reports net.ErrClosed", "C18-R16": "while the limiter's shared mutex (counterCond.L) is held, only the counter, the condition variable, the gauges and the logger are called: no method of the wrapped listener or connection, which may block on a lock of its own while every listener of the limiter waits", "C18-R15": "tlsConn.Close closes the wrapped (limiter) connection on every path", "C18-R14": "ServerDNS.Start and ServerTLS.Start count their TCP accept loop in the wait group that Shutdown waits for before it releases the worker pool", "C18-R12": "the worker pool of the plain-DNS and DoT servers has no capacity limit, so Submit cannot fail on the accept path and strand a connection with its limiter slot (shared with C01-R9)", "C18-R13": "dnssvc.newListeners passes the configured connection limiter to newListenConfig as it is, for every protocol", "C18-R11": "an accepted connection is handed to its worker or closed on every path; closeListeners closes both listeners unconditionally", "C18-RC": "class rules (error chains, shadowed results, character classes, crossed arguments, pool constructors, array pools, loop completeness, loop-carried buffers, replacing setters, complete clones, Grow arithmetic, pooled-buffer escape, sorted searches, fresh decode targets, per-iteration objects, whole-message copies, codec guards) over the packages this property rests on", "C18-R10": "Shutdown waits for the connections before releasing the worker pool", "C18-R1": "counter transition tables", "C18-R2": "counter state only under counterCond.L",
 				"C18-R3": "Broadcast after every state change that can release waiters; no Signal",
 				"C18-R4": "slot taken/released exactly once on every accept/close path", "C18-R8": "Close marks the listener closed and wakes all waiting accepts on every path, also when the underlying listener's Close fails",
 				"C18-R7": "limiter wiring: New builds one shared counter with the configured thresholds; Limit hands every listener that shared counter and condition variable; the limiting ListenConfig wraps every stream listener; dnssvc wraps the listen config whenever a limiter is configured; the YAML thresholds reach New unchanged",
@@ -37,6 +37,11 @@ func init() {
 }
 
 func runC18(c *an.Ctx) {
+	// ---- R21: listeners come from the ListenConfig; R22: constructors keep the caller's ListenConfig
+	c18ListenersThroughConfig(c, "C18-R21")
+	if n := c18ListenConfigKept(c, "C18-R22"); n < 3 {
+		c.Und("C18-R22", "default ListenConfig in the server constructors", token.NoPos, "only %d stores into ListenConfig found in the constructors of dnsserver (expected one per server type)", n)
+	}
 	// ---- R20: shutdown closes the listeners at once
 	c.Floor("C18-R20", 2)
 	c18ShutdownClosesListeners(c, "C18-R20")
@@ -1179,4 +1184,78 @@ func c18ShutdownClosesListeners(c *an.Ctx, rule string) {
 		c.Check(!leak, rule, key, stop.Pos(), "closeListeners lies on every path from started = false to a return",
 			"the server is marked stopped at "+c.Pos(stop.Pos())+" and shutdown can return without having closed the listeners: if the rest of Shutdown fails or times out, the (limited) listener stays open and its pending accept keeps a slot of the shared limiter for ever")
 	}
+}
+
+// c18ListenersThroughConfig: connlimiter.ListenConfig wraps the listeners that a
+// server asks its ListenConfig for.  A listener made by a direct call of
+// net.Listen, net.ListenTCP or tls.Listen is not counted: its connections and
+// its pending accept are outside the limit.
+func c18ListenersThroughConfig(c *an.Ctx, rule string) {
+	n := 0
+	for _, fn := range c.AllFns {
+		k := an.FnKey(fn)
+		if fn.Blocks == nil || c.IsTestFile(fn.Pos()) || !strings.HasPrefix(k, "dnsserver.") {
+			continue
+		}
+		n++
+		for _, call := range an.Calls(fn) {
+			switch an.CalleeName(call) {
+			case "crypto/tls.Listen", "net.Listen", "net.ListenTCP", "net.ListenUnix", "net.FileListener":
+				c.Analysed(k)
+				c.Bad(rule, k+" asks its ListenConfig for its listeners", call.Pos(),
+					"%s is called at %s: the listener is not made by the server's ListenConfig, so the connection limiter (and the socket options) configured there do not apply to it", an.CalleeName(call), c.Pos(call.Pos()))
+			}
+		}
+	}
+	if n == 0 {
+		c.Und(rule, "direct listener creation in dnsserver", token.NoPos, "no function of package dnsserver found")
+		return
+	}
+	c.Ok(rule, "direct listener creation in dnsserver", token.NoPos, "%d functions of package dnsserver scanned", n)
+}
+
+// c18ListenConfigKept: the New* constructors of dnsserver fill in a default
+// ListenConfig when the caller passed none.  Every store into a ListenConfig
+// field in them is dominated by the "is nil" edge of a test of that field.
+// Returns the number of stores examined.
+func c18ListenConfigKept(c *an.Ctx, rule string) (examined int) {
+	for _, fn := range c.AllFns {
+		k := an.FnKey(fn)
+		if fn.Blocks == nil || c.IsTestFile(fn.Pos()) || !strings.HasPrefix(k, "dnsserver.") || !(strings.HasPrefix(fn.Name(), "New") || strings.HasPrefix(fn.Name(), "new")) {
+			continue
+		}
+		an.Instrs(fn, func(in ssa.Instruction) {
+			st, ok := in.(*ssa.Store)
+			if !ok {
+				return
+			}
+			_, f, _, ok := an.FieldOf(st.Addr)
+			if !ok || f != "ListenConfig" {
+				return
+			}
+			examined++
+			c.Analysed(k)
+			guarded := false
+			for _, e := range an.DominatingConds(st.Block()) {
+				b, isB := e.If.Cond.(*ssa.BinOp)
+				if !isB || b.Op != token.EQL && b.Op != token.NEQ {
+					continue
+				}
+				other := b.X
+				if an.IsNilConst(b.X) {
+					other = b.Y
+				} else if !an.IsNilConst(b.Y) {
+					continue
+				}
+				if ld, isLd := other.(*ssa.UnOp); isLd && ld.Op == token.MUL {
+					if _, lf, _, ok := an.FieldOf(ld.X); ok && lf == "ListenConfig" && (b.Op == token.EQL) == e.Branch {
+						guarded = true
+					}
+				}
+			}
+			c.Check(guarded, rule, k+" replaces ListenConfig only when none was given", st.Pos(), "the store is made under ListenConfig == nil",
+				"ListenConfig is overwritten at "+c.Pos(st.Pos())+" without a test that the caller gave none: the limiting (and socket-option) ListenConfig that dnssvc passes is thrown away, and the server's stream listener is outside the connection limit")
+		})
+	}
+	return examined
 }
